@@ -20,7 +20,7 @@ def run(chk):
                              ver_alphabet=[[48, 57], [46, 46], [97, 98]]))
     if chk.only:
         jobs = [j for j in jobs if chk.only in ','.join(j['docs'])]
-    chk.bounds = dict(documents=sorted(docs) + ['jbase', 'jnest', 'jv2'],
+    chk.bounds = dict(documents=sorted(docs) + ['jbase', 'jnest', 'jfold', 'jv2'],
                       parser_made_values='fixed-offset date-times without zone name in different DST seasons and at a skipped local time, zone-named date-times, non-official versions 2.5 and 3.0.0, nested lists/dicts/grids, every scalar kind',
                       mutation='one symbolic code point replacing every second (quick) / every (thorough) character; only paths on which hszinc.parse accepts the text are claimed',
                       checks='dump twice identical; grid unchanged by dump; parse(dump(g, m), m) equals g for m in ZINC, JSON; ZINC->JSON->ZINC and JSON->ZINC->JSON; dump(parse(dump(g))) == dump(g) character for character')
